@@ -431,6 +431,8 @@ pub fn apply(m: &mut Module, e: &Json) -> Json {
                 // the replacement body reads every parameter it is handed (and drops it)
                 // ... and writes a scratch local that was allocated before the parameters of the new function exist
                 let scratch = m.locals.add(ValType::I64);
+                // a block type with a parameter and a result, made the way a user makes one
+                let p1r1 = walrus::ir::InstrSeqType::new(&mut m.types, &[ValType::I32], &[ValType::I32]);
                 let mut handed: Vec<usize> = vec![];
                 let mut fill = |body: &mut InstrSeqBuilder, args: &Vec<LocalId>| {
                     handed = args.iter().map(|a| a.index()).collect();
@@ -447,6 +449,7 @@ pub fn apply(m: &mut Module, e: &Json) -> Json {
                         let me = b.id();
                         b.i32_const(0).br_if(me);
                     });
+                    body.i32_const(5).block(p1r1, |_| {}).drop();
                     build_body(body, &res, &results);
                 };
                 let r = if op == "replace_imported" {
@@ -468,7 +471,7 @@ pub fn apply(m: &mut Module, e: &Json) -> Json {
                                 if let Some(af) = am.funcs.iter().find(|g| g.idx as i32 == *fi) {
                                     let reads: Vec<i32> = af.ops.iter().filter(|o| o.o == "LocalGet").take(params.len()).map(|o| o.local).collect();
                                     let sc = af.ops.iter().find(|o| o.o == "LocalSet").map(|o| o.local).unwrap_or(-1);
-                                    let shape: Vec<String> = af.ops.iter().filter(|o| ["Loop", "Block", "If", "Else", "End", "Br", "BrIf"].contains(&o.o.as_str())).take(6).map(|o| if o.o == "BrIf" || o.o == "Br" { format!("{}{}", o.o, o.labels.first().copied().unwrap_or(99)) } else { o.o.clone() }).collect();
+                                    let shape: Vec<String> = af.ops.iter().filter(|o| ["Loop", "Block", "If", "Else", "End", "Br", "BrIf"].contains(&o.o.as_str())).take(8).map(|o| if o.o == "BrIf" || o.o == "Br" { format!("{}{}", o.o, o.labels.first().copied().unwrap_or(99)) } else if o.bt.is_empty() || o.bt == "()->()" { o.o.clone() } else { format!("{}{}", o.o, o.bt) }).collect();
                                     emitted = Some((reads, sc, shape));
                                 }
                             }
